@@ -43,10 +43,13 @@ def _one_substance(si):
     subs = [(spec, mk(pp, spec)) for spec in SUBST]
     units = [(p, b) for b in BASES for p in PREFIXES]
     for _spec, _s in subs:          # touch every substance once first: conversions must not depend on call history
-        U.convert_from(_s, 1, 'g', 'g')
-        if _spec[0] == 'enzyme':
-            U.convert_from(_s, 2.5, 'g', 'U')
-            U.convert_from(_s, 7, 'mg', 'L')
+        try:
+            U.convert_from(_s, 1, 'g', 'g')
+            if _spec[0] == 'enzyme':
+                U.convert_from(_s, 2.5, 'g', 'U')
+                U.convert_from(_s, 7, 'mg', 'L')
+        except Exception:  # noqa: judged below, where the same conversions are part of the table
+            pass
     for spec, s in [subs[si]]:
         rs = ref.rsub(s)
         kind = spec[0]
@@ -96,12 +99,18 @@ def _one_substance(si):
                     continue
                 # linearity on the implementation itself
                 if expect != 0:
-                    a, b = U.convert_from(s, 3.0, fu, tu), U.convert_from(s, 1.5, fu, tu)
+                    try:
+                        a, b = U.convert_from(s, 3.0, fu, tu), U.convert_from(s, 1.5, fu, tu)
+                        back = U.convert_from(s, a, tu, fu)
+                    except Exception as e:  # noqa
+                        viols.append(V(sig('convert_from', kind, 'raises', bf, bt, pf, pt),
+                                       f"convert_from({spec[1]}, 3.0 / 1.5, {fu!r}, {tu!r}) or the way back raised "
+                                       f"{type(e).__name__}: {e}", case))
+                        continue
                     if abs(a - 2 * b) > 1e-12 * abs(a):
                         viols.append(V(sig('convert_from', kind, 'not-linear', bf, bt, pf, pt),
                                        f"convert_from({spec[1]}, 3.0, ...) != 2*convert_from(.., 1.5, ..) for {fu}->{tu}", case))
                     # round trip
-                    back = U.convert_from(s, a, tu, fu)
                     n += 3
                     if isinstance(back, (int, float)) and abs(back - 3.0) > 1e-11:
                         viols.append(V(sig('convert_from', kind, 'round-trip', bf, bt, pf, pt),
@@ -121,8 +130,14 @@ def _one_substance(si):
                     if not f_ab or not f_bc:
                         continue          # composition is only claimed where the factors are finite and non-zero
                     n += 3
-                    via = U.convert_from(s, U.convert_from(s, 2.5, fa, fb), fb, fc)
-                    direct = U.convert_from(s, 2.5, fa, fc)
+                    try:
+                        via = U.convert_from(s, U.convert_from(s, 2.5, fa, fb), fb, fc)
+                        direct = U.convert_from(s, 2.5, fa, fc)
+                    except Exception as e:  # noqa
+                        viols.append(V(sig('convert_from', kind, 'raises', ba, bc, pa, pc),
+                                       f"{spec[1]}: 2.5 {fa} -> {fb} -> {fc} raised {type(e).__name__}: {e}",
+                                       {'cfg': cfg, 'spec': spec, 'from': fa, 'via': fb, 'to': fc}))
+                        continue
                     if abs(via - direct) > 1e-11 * abs(direct):
                         viols.append(V(sig('convert_from', kind, 'not-composable', ba, bc, pa, pc),
                                        f"{spec[1]}: 2.5 {fa} -> {fb} -> {fc} = {via!r} but {fa} -> {fc} = {direct!r}",
@@ -145,6 +160,8 @@ def _one_substance(si):
                         want = U.convert_from(s, float(xs) * float(ref.SI[pf]), bf, pt + bt)
                     except ValueError:
                         want = 'ValueError'
+                    except Exception as e:  # noqa: the table above reports it
+                        want = type(e).__name__
                     if isinstance(want, float) and (math.isinf(want) or math.isnan(want)):
                         continue      # undefined region (infinite density on the source side)
                     same = (got == want) if isinstance(got, str) or isinstance(want, str) else \
